@@ -380,6 +380,28 @@ func ShrinkPlan(pa any) []any {
 			out = append(out, q)
 		}
 	}
+	// 0b. keep the operations of a single node only (most violations concern one node)
+	{
+		seen := map[int]bool{}
+		for _, op := range p.Ops {
+			seen[op.Node] = true
+		}
+		if len(seen) > 1 {
+			for n := range p.Nodes {
+				if !seen[n] {
+					continue
+				}
+				q := clone()
+				q.Ops = nil
+				for _, op := range p.Ops {
+					if op.Node == n {
+						q.Ops = append(q.Ops, op)
+					}
+				}
+				out = append(out, q)
+			}
+		}
+	}
 	// 1. drop ops (chunks then singles), from the end first
 	for size := len(p.Ops) / 2; size >= 1; size /= 2 {
 		for at := len(p.Ops) - size; at >= 0; at -= size {
